@@ -31,6 +31,13 @@ def main(tier):
     apicheck.run_histories(ck, ["mat", "vals", "gssvx", "destroy", "trans", "user", "equil"], 4 if quick else 5, 80 if quick else 1000, rng,
                            precs=("d", "z") if quick else ("d", "s", "z", "c"), threads=(1, 2, 3, 4, 8), nmax=24 if quick else 60,
                            hist_filter=interesting, pert=20)
+    # the same property through the computational routines called directly (p?gstrf_init / p?gstrf / ?gstrs / pxgstrf_finalize, the
+    # protocol of EXAMPLE/pdrepeat.c): sessions with at least one re-factorization, solves and condition estimates in between
+
+    def refactors(h):
+        return sum(1 for c in h if c["call"] == "sfactor") >= 2 and any(c["call"] == "sinit" and c["refact"] for c in h)
+    apicheck.run_sessions(ck, 8 if quick else 9, 40 if quick else 800, rng, precs=("d", "z") if quick else ("d", "s", "z", "c"), threads=(1, 2, 3, 4, 8),
+                          nmax=24 if quick else 60, hist_filter=refactors, pert=20, simulate=None if quick else 40000)
     return ck.finish()
 
 
